@@ -119,9 +119,10 @@ func withOp(p []op, o op) []op { return append(append(make([]op, 0, len(p)+1), p
 func expand(w *world, c cfg, n node) *expansion {
 	e := &expansion{Hist: map[string]int{}, FaultHist: map[string]int{}}
 	live := false
+	diverged := false
 	var snap *snapshot
 	ensure := func() {
-		if live {
+		if live || diverged {
 			return
 		}
 		how := "replay"
@@ -134,7 +135,16 @@ func expand(w *world, c cfg, n node) *expansion {
 			e.Replays++
 		}
 		if k := w.canon(); k != n.Key {
-			ev.Fatal("%s diverged for path %v:\nwant %s\ngot  %s\n%s", how, pathStrings(n.Path), n.Key, k, w.canonText())
+			// The state was first reached by applying the last operation to a world restored from a
+			// snapshot (the database bytes + a freshly constructed key manager = a process restarted
+			// before that operation); now the whole history ran in one process (or the other way
+			// round). On the unchanged tree the two always coincide - a restart on the same database
+			// is transparent - so a difference means that what is stored depends on the lifetime of
+			// the process (state kept in memory and not written through).
+			e.Viols = append(e.Viols, violation{Kind: "restart-not-transparent", Trace: n.Path,
+				What: fmt.Sprintf("after %v the canonical state (stored signer data + wallet + released signatures) differs between a process that ran the whole history and one restarted on the same database before the last operation (%s)\nnow:\n%s", pathStrings(n.Path), how, w.canonText())})
+			diverged = true
+			return
 		}
 		if snap == nil && w.clean() {
 			snap = w.snapshot()
@@ -143,6 +153,9 @@ func expand(w *world, c cfg, n node) *expansion {
 		live = true
 	}
 	ensure()
+	if diverged {
+		return e
+	}
 	ops := menu(w, c)
 	record := func(o op, out outcome, budget int) {
 		if out.Viol != "" {
@@ -163,6 +176,9 @@ func expand(w *world, c cfg, n node) *expansion {
 	}
 	for _, o := range ops {
 		ensure()
+		if diverged {
+			return e
+		}
 		out := w.apply(o)
 		e.Transitions++
 		e.Hist[out.Label]++
@@ -181,6 +197,9 @@ func expand(w *world, c cfg, n node) *expansion {
 		for k := range calls {
 			for _, mode := range faultModes {
 				ensure()
+				if diverged {
+					return e
+				}
 				fo := o
 				fo.Fault = &fault{K: k, Mode: mode}
 				fout := w.apply(fo)
@@ -275,6 +294,18 @@ func explore(r *ev.Run, c cfg, p *pool, hist, faultHist map[string]int, nontrivi
 
 // report confirms a violation by re-running its trace twice on fresh real objects, then records it.
 func report(r *ev.Run, c cfg, v violation) {
+	if v.Kind == "restart-not-transparent" {
+		// differential finding (two ways of reaching the state disagree): the comparison itself is
+		// the reproduction
+		var kinds []string
+		for _, o := range v.Trace {
+			kinds = append(kinds, o.K)
+		}
+		r.Violate(v.Kind+" via "+strings.Join(kinds, ","), v.What, "c04-seq",
+			map[string]interface{}{"config": c, "ops": v.Trace, "ops_readable": pathStrings(v.Trace)},
+			"stored state depends on whether the process was restarted", "a restart on the same database is transparent")
+		return
+	}
 	for i := 0; i < 2; i++ {
 		w := newWorld()
 		kind, _ := runTrace(w, c, v.Trace, false)
